@@ -17,8 +17,8 @@ let handle_line (line : string) =
       match Hashtbl.find_opt ops a.(0) with
       | Some f ->
         (try f a with
-         | Crash why -> emit ("PANIC " ^ why); dead := true
-         | Exit_ why -> emit ("EXIT " ^ why); dead := true)
+         | Crash_ why -> emit ("PANIC " ^ why); dead := true
+         | Exit_ _ -> emit "EXIT"; dead := true)
       | None -> emit ("UNKNOWN-OP " ^ a.(0))
   end
 
